@@ -265,6 +265,46 @@ def run_env(cfg, label: str, steps: int, rng: random.Random, power: PowerRecorde
     return out
 
 
+def run_tour(facet: str, seed: int, power: PowerRecorder, links: LinkRecorder, sw: SwitchRecorder, chk):
+    """The transition tours of spec/Lifecycle.tla (every agent operation at every power x component state) under the
+    same passive recorders."""
+    from primaite.session.environment import PrimaiteGymEnv
+
+    from . import tour
+
+    g = tour.graph(facet)
+    eps, st = tour.tour(g, random.Random(seed), episode_len=300)
+    chk.cov[f"tour_{facet}"] = st
+    cfg, idx = tour.scenario(facet)
+    env = PrimaiteGymEnv(env_config=cfg)
+    out: Dict[str, List[Dict[str, Any]]] = {"power": [], "switch": [], "link": []}
+    for ei, ep in enumerate(eps):
+        env.reset(seed=seed + ei)
+        links.take()
+        power.begin(env.game, f"tour:{facet}")
+        sw.begin(env.game, f"tour:{facet}")
+        raised = None
+        for a in ep:
+            if a == "red-compromise":
+                tour.compromise(env.game, facet)
+            try:
+                env.step(idx[a])
+            except Exception as e:  # noqa
+                raised = repr(e)[:300]
+                break
+        out["power"] += power.take()
+        out["switch"] += sw.take()
+        lt = links.take({"scenario": f"tour:{facet}", "episode": ei}, min_events=2)
+        for t in lt:
+            t.setdefault("meta", {})["scenario"] = f"tour:{facet}"
+        out["link"] += lt
+        chk.add_case({"scenario": f"tour:{facet}", "episode": ei, "len": len(ep)}, nontrivial=True)
+        if raised:
+            chk.violation({"module": "compose", "scenario": f"tour:{facet}", "clause": "StepTotal", "exc": raised.split("(")[0]}, {"raised": raised})
+    env.close()
+    return out
+
+
 def main(tier: str, seed: int) -> int:
     chk = common.Check("EXT-compose", "model_checking", tier, seed)
     rng = random.Random(seed)
@@ -282,6 +322,10 @@ def main(tier: str, seed: int) -> int:
     acc: Dict[str, List[Dict[str, Any]]] = {"power": [], "switch": [], "link": []}
     for label, cfg, steps in runs:
         out = run_env(cfg, label, steps, rng, power, links, sw, chk)
+        for k in acc:
+            acc[k] += out[k]
+    for facet in (("svc", "app", "fs")[seed % 3],) if tier == "quick" else ("svc", "app", "fs"):
+        out = run_tour(facet, seed, power, links, sw, chk)
         for k in acc:
             acc[k] += out[k]
     for k, mod, spec in (("power", "NodePower", "NodePowerTrace"), ("link", "Link", "LinkTrace"), ("switch", "Switch", "SwitchTrace")):
